@@ -259,17 +259,31 @@ fn excl_and_plan(seed: u64, idx: u64, rep: &mut Report) {
 }
 
 fn listing(seed: u64, idx: u64, rep: &mut Report) {
-    let mut rng = Rng::derive(seed, 192, idx);
+    listing_of(seed, idx, false, rep)
+}
+
+/// Listings of hundreds to thousands of records (64 KiB .. 1 MiB of text) whose names are mostly 2-, 3- and 4-byte
+/// characters: whatever unit the reader works in (a pipe buffer, a 64 KiB window, a line buffer), some character and
+/// some record straddles its boundary.
+fn big_listing(seed: u64, idx: u64, rep: &mut Report) {
+    listing_of(seed, idx, true, rep)
+}
+
+fn listing_of(seed: u64, idx: u64, big: bool, rep: &mut Report) {
+    let mut rng = Rng::derive(seed, if big { 193 } else { 192 }, idx);
     rep.evaluations += 1;
-    let alpha = ['a', 'b', '.', '\t', '\n', ' ', 'é', '日', '-', '*', '\\', '\'', '"'];
-    let n = rng.range(0, 8);
+    let small_alpha = ['a', 'b', '.', '\t', '\n', ' ', 'é', '日', '-', '*', '\\', '\'', '"'];
+    let big_alpha = ['é', '日', '€', '\u{1F600}', 'ß', '語', 'a', '\u{10348}', ' ', 'ñ'];
+    let alpha: &[char] = if big { &big_alpha } else { &small_alpha };
+    let n = if big { rng.range(600, 4000) } else { rng.range(0, 8) };
+    let maxlen = if big { *rng.pick(&[5usize, 12, 40, 80]) } else { 5 };
     let mut want: BTreeMap<String, (u64, i64)> = BTreeMap::new();
     let mut raw = Vec::new();
     for _ in 0..n {
         let depth = rng.range(1, 3);
         let comps: Vec<String> = (0..depth)
             .map(|_| loop {
-                let s = rand_str(&mut rng, 5, &alpha);
+                let s = rand_str(&mut rng, maxlen, alpha);
                 if !s.is_empty() && s != "." && s != ".." {
                     break s;
                 }
@@ -310,7 +324,18 @@ fn listing(seed: u64, idx: u64, rep: &mut Report) {
     };
     let gotm: BTreeMap<String, (u64, i64)> = got.iter().map(|(k, v)| (k.to_string_lossy().into_owned(), (v.size, v.mtime))).collect();
     if gotm != want {
-        rep.violation("C19|parse_listing|roundtrip-differs", json!({"want": want, "got": gotm}));
+        if big {
+            let missing: Vec<&String> = want.keys().filter(|k| !gotm.contains_key(*k)).take(3).collect();
+            let extra: Vec<&String> = gotm.keys().filter(|k| !want.contains_key(*k)).take(3).collect();
+            rep.violation("C19|parse_listing|roundtrip-differs|listing-over-64KiB", json!({"seed": seed, "case": idx, "records": want.len(), "bytes": raw.len(), "missing": missing, "unexpected": extra}));
+        } else {
+            rep.violation("C19|parse_listing|roundtrip-differs", json!({"want": want, "got": gotm}));
+        }
+    }
+    if big {
+        rep.count("listings_over_64KiB", u64::from(raw.len() > 65536));
+        rep.count("listing_bytes", raw.len() as u64);
+        rep.distinct.insert(format!("listing|big|{}KiB", (raw.len() / 65536) * 64));
     }
     if want.keys().any(|k| k.contains('\t') || k.contains('\n')) {
         rep.count("listings_with_tab_or_newline_names", 1);
@@ -392,5 +417,6 @@ pub fn run(seed: u64, thorough: bool, cases: Option<u64>) -> Report {
     rep.merge(par_cases(n, |i, r| matcher_random(seed, i, r)));
     rep.merge(par_cases(n * 2, |i, r| excl_and_plan(seed, i, r)));
     rep.merge(par_cases(n, |i, r| listing(seed, i, r)));
+    rep.merge(par_cases(if thorough { 600 } else { 60 }, |i, r| big_listing(seed, i, r)));
     rep
 }
